@@ -5,6 +5,20 @@
    correspondence only (the harness parses the very bytes it feeds to the decoder with an
    independent protowire walk and sends that tree).
 
+   WELL-TYPED TREES.  The constructors WVar / WPacked / WStr / WMsg / WFix64 / WFix32 record the wire
+   type AND the way the decoder reads the field.  protoscan v0.2.1 checks no wire type (iterator.go:
+   "TODO: validate wiretype"): Int32() on a length-delimited field reads the length prefix as the
+   value, Iterator()/MessageData() on a varint take its value as a length.  The typed views below
+   (as_var, as_packed, as_msg) answer Err E_WIRE instead.  So model and implementation agree only on
+   well-typed trees: every field whose number the enclosing message's schema defines carries the
+   constructor the schema's type requires (scalar -> WVar, packed column -> WPacked, bytes/string ->
+   WStr, sub-message -> WMsg), recursively; fields with undefined numbers may carry anything (they are
+   skipped by wire type).  Every tree the harness ships is well-typed by construction (its parser is
+   schema-directed) and the checks reject a case on which the model answers E_WIRE (code 4).
+   Statements quantified over "every message tree" are statements about the MODEL; they transfer to
+   the implementation on well-typed trees only (byte-level misreads of ill-typed input belong to the
+   framing/damage properties C06/C09, which feed bytes, not trees).
+
    Raw varints are Z in [0, 2^64).  Fixed32/fixed64 fields only occur as unknown fields (no OSM PBF
    message defines one); the decoder skips them (skipField, fix e98d69a: protoscan v0.2.1 mis-skips a
    fixed-width field that ends a message), so a typed view of one is a wire-type error. *)
